@@ -210,8 +210,7 @@ Lemma acquire_x_facts cf s c k l :
   let s' := fst (acquire_x cf s c k l) in
   let r := snd (acquire_x cf s c k l) in
   produced s' = produced s /\ cur s' = cur s /\ dicts s' = dicts s /\ currsize s' = currsize s /\
-  (r = RLockErr \/ r = RBlocked) /\
-  (phase s' c = CIdle \/ phase s' c = CEntryCk k \/ phase s' c = CLockWait k l (now s) (cur s)).
+  r = RBlocked /\ phase s' c = CEntryCk k.
 Proof. unfold acquire_x. cbn [fst snd]. sm. rewrite upd_same. auto 10. Qed.
 
 Definition fresh_k (k : key) (ck : nat) (d : list slot) : Prop := forall y, In y d -> sk y = k -> ck <= ss y.
@@ -319,7 +318,7 @@ Lemma acq_no_ret cf sp c k l b (x : bool) v :
   snd ((if x then acquire_x else acquire) cf sp c k l) <> RRet v.
 Proof.
   intros Hd. destruct x.
-  - pose proof (acquire_x_facts cf sp c k l) as FF; cbv zeta in FF; destruct FF as (_ & _ & _ & _ & [H|H] & _); rewrite H; discriminate.
+  - pose proof (acquire_x_facts cf sp c k l) as FF; cbv zeta in FF; destruct FF as (_ & _ & _ & _ & H & _); rewrite H; discriminate.
   - pose proof (acquire_facts cf sp c k l) as FF; cbv zeta in FF; destruct FF as (_ & _ & _ & _ & H & _). cbv zeta in H.
     destruct H as [H|[H|[[H _]|(y & v2 & e2 & H & H3 & H4)]]]; try (rewrite H; discriminate).
     exfalso. pose proof (dget_find _ _ _ H3) as Hg. unfold dict in Hd. rewrite Hd, H4 in Hg. discriminate.
@@ -463,7 +462,7 @@ Proof.
     destruct (enter_pre cf s c a x IJ) as [[_ H]|[(_ & _ & _ & _ & _ & H & _)|[H|H]]]; cbv zeta in *; try congruence.
     - destruct H as (y & v0 & exp & _ & _ & _ & _ & _ & _ & _ & _ & _ & [[H _]|[H _]]); congruence.
     - destruct H as (sp & l & _ & _ & _ & E & _). rewrite E in Hr. destruct x.
-      + pose proof (acquire_x_facts cf sp c (key_of cf a) l) as FF; cbv zeta in FF; destruct FF as (_ & _ & _ & _ & [H|H] & _); congruence.
+      + pose proof (acquire_x_facts cf sp c (key_of cf a) l) as FF; cbv zeta in FF; destruct FF as (_ & _ & _ & _ & H & _); congruence.
       + pose proof (acquire_facts cf sp c (key_of cf a) l) as FF; cbv zeta in FF; destruct FF as (_ & _ & _ & _ & H & _). cbv zeta in H.
         destruct H as [H|[H|[[H _]|(y & v2 & e2 & H & _)]]]; congruence. }
   destruct o as [c a|c a|c v0|c e0|c|c| | |]; unfold step.
@@ -902,7 +901,7 @@ Proof.
     destruct Hres as [Hr|[b0 Hr]]; [eapply acq_no_ret; eauto|].
     destruct x.
     + pose proof (acquire_x_facts cf sp c (key_of cf a) l) as F. cbv zeta in F.
-      destruct F as (_ & _ & _ & _ & _ & [F|[F|F]]); congruence.
+      destruct F as (_ & _ & _ & _ & _ & F); congruence.
     + pose proof (acquire_facts cf sp c (key_of cf a) l) as F. cbv zeta in F.
       destruct F as (_ & _ & _ & _ & _ & [F|[F|F]] & _); congruence.
 Qed.
